@@ -135,3 +135,67 @@ Proof.
     inversion H; subst; cbn in D. apply N.eqb_neq in E5. congruence. }
   rewrite downlink_squawk_sets; [exact Q | exact D | exact I | rewrite Q; discriminate].
 Qed.
+
+(** ---- altitude (C05) ---- *)
+Lemma plane_update_altitude_sets obs now r m df relaxed r' :
+  plane_update obs now r m df relaxed = Ok r' -> df = 4 \/ df = 20 ->
+  exists a, altitude m df = Ok a /\ r_altitude r' = a.
+Proof.
+  unfold plane_update. intros H D.
+  destruct (update_from_bcast _ m df) as [r1|] eqn:E1; cbn [bind] in H; [|discriminate].
+  assert (exists a, altitude m df = Ok a /\ r_altitude r1 = a) as [a [S1 S2]].
+  { unfold update_from_bcast in E1.
+    assert (((df =? 4) || (df =? 20)) = true) as X by (destruct D; subst; reflexivity).
+    assert (((df =? 5) || (df =? 21)) = false) as X5 by (destruct D; subst; reflexivity).
+    assert (((df =? 11) || (df =? 17)) = false) as X11 by (destruct D; subst; reflexivity).
+    rewrite X, X5, X11 in E1. cbn [bind] in E1.
+    destruct (altitude m df) as [a|]; cbn [bind] in E1; [|discriminate].
+    inversion E1; subst. exists a. split; reflexivity. }
+  exists a. split; [exact S1|]. rewrite <- S2.
+  assert (is_ext df = false) as X by (destruct D; subst; reflexivity).
+  unfold is_ext in X. rewrite X in H. cbn [bind] in H.
+  destruct ((relaxed || (3 <? cap_ca r1)) && ((df =? 20) || (df =? 21))).
+  - apply update_from_mode_s_fp in H. symmetry. apply (H F_altitude). reflexivity.
+  - inversion H; subst. reflexivity.
+Qed.
+
+Lemma update_from_ext_altitude obs r m df r' tc st :
+  get_message_type m = Ok (tc, st) -> in_tc 9 18 tc = true ->
+  update_from_ext obs r m df = Ok r' ->
+  exists a, altitude m df = Ok a /\ r_altitude r' = a.
+Proof.
+  unfold update_from_ext. intros T C H. rewrite T in H. cbn [bind] in H.
+  assert (in_tc 1 4 tc = false /\ in_tc 5 8 tc = false) as [C1 C2].
+  { unfold in_tc in *. apply andb_prop in C. destruct C as [Ca Cb].
+    apply N.leb_le in Ca. apply N.leb_le in Cb.
+    split; apply andb_false_intro2; apply N.leb_gt; lia. }
+  rewrite C1, C2, C in H.
+  destruct (altitude m df) as [a|]; cbn [bind] in H; [|discriminate].
+  destruct (surveillance_status m) as [s|]; cbn [bind] in H; [|discriminate].
+  apply update_cpr_fp in H. exists a. split; [reflexivity|].
+  symmetry. apply (H F_altitude). reflexivity.
+Qed.
+
+Lemma plane_update_altitude_df17 obs now r m relaxed r' tc st :
+  plane_update obs now r m 17 relaxed = Ok r' ->
+  get_message_type m = Ok (tc, st) -> in_tc 9 18 tc = true ->
+  exists a, altitude m 17 = Ok a /\ r_altitude r' = a.
+Proof.
+  unfold plane_update. intros H T C.
+  destruct (update_from_bcast _ m 17) as [r1|] eqn:E1; cbn [bind] in H; [|discriminate].
+  change ((17 =? 17) || (17 =? 18)) with true in H. cbv iota in H.
+  destruct (update_from_ext obs r1 m 17) as [r2|] eqn:E2; cbn [bind] in H; [|discriminate].
+  change ((17 =? 20) || (17 =? 21)) with false in H. rewrite andb_false_r in H. inversion H; subst.
+  eapply update_from_ext_altitude; eassumption.
+Qed.
+
+(** downlink path: a DF4 reply with a decoded altitude sets it, one without keeps the old value *)
+Lemma downlink_altitude_df4 obs now r s :
+  s_df s = Some 4 -> s_icao s <> None ->
+  r_altitude (update_from_downlink obs now r (DSrt s)) =
+    match s_alt s with Some a => Some a | None => r_altitude r end.
+Proof.
+  intros D I. unfold update_from_downlink. cbn [dl_df]. rewrite D.
+  unfold update_from_srt_dl. destruct (s_icao s); [|congruence]. cbn [is_some]. rewrite D.
+  destruct (s_alt s); destruct (s_squawk s); destruct (s_cap s); reflexivity.
+Qed.
